@@ -113,22 +113,16 @@ def go_build(cmd_name, tags="verif", overlay=None, race=False):
 
 
 def regen_facts():
-    """regenerate PdModel/Generated/Consts.lean from REPO; returns (ok, message)"""
+    """regenerate PdModel/Generated/<Area>.lean from REPO (facts/<Area>.json); returns (ok, message)"""
     exe, err = go_build("factgen", tags="")
     if exe is None:
         return False, "factgen does not build:\n" + err
-    rc, out = sh([exe, "-repo", REPO], timeout=120)
-    # stdout and stderr are mixed; the Lean text is the part from the GENERATED marker on
-    i = out.find("-- GENERATED")
-    text = out[i:] if i >= 0 else ""
-    msg = out[:i] if i >= 0 else out
-    if rc != 0 or not text:
-        return False, "factgen failed (a modelled constant or structure is gone):\n" + msg
-    p = os.path.join(LEAN, "PdModel", "Generated", "Consts.lean")
     with Lock("lake"):
-        if not os.path.exists(p) or open(p).read() != text:
-            open(p, "w").write(text)
-    return True, text
+        rc, out = sh([exe, "-repo", REPO, "-facts", os.path.join(VERIF, "facts"),
+                      "-out", os.path.join(LEAN, "PdModel", "Generated")], timeout=300)
+    if rc != 0:
+        return False, "factgen failed (a modelled constant or structure is gone):\n" + out
+    return True, out
 
 
 # ---------------------------------------------------------------------------------------------
@@ -189,13 +183,19 @@ def grep_forbidden(files):
     return hits
 
 
-def driver_exe():
-    return os.path.join(LEAN, ".lake", "build", "bin", "pdmodel")
+def driver_exe(area):
+    return os.path.join(LEAN, ".lake", "build", "bin", "pdmodel-" + area)
+
+
+def exe_targets():
+    """driver executables whose root file exists"""
+    d = os.path.join(LEAN, "Mains")
+    return sorted("pdmodel-" + f[:-5].lower() for f in os.listdir(d) if f.endswith(".lean"))
 
 
 def run_driver(area, trace_path, timeout=1800):
     with open(trace_path) as f:
-        rc, out = sh([driver_exe(), area], stdin=f, timeout=timeout)
+        rc, out = sh([driver_exe(area)], stdin=f, timeout=timeout)
     diffs, fails, summary = [], [], None
     for l in out.splitlines():
         if l.startswith("DIFF "):
